@@ -25,6 +25,9 @@ pub struct DwarfPlan {
     pub row_at_function_start: bool,
     /// give the compile unit DIE a low_pc/high_pc pair spanning all functions
     pub cu_range: bool,
+    /// subprograms get child DIEs (parameters, a lexical block with its own
+    /// range) so that the DIE tree is not flat
+    pub children: bool,
 }
 
 pub const LINE_STRIDE: u64 = 100_000;
@@ -208,6 +211,20 @@ pub fn synthesize(m: &ModuleD, plan: &DwarfPlan) -> Option<Vec<(String, Vec<u8>)
         d.set(gimli::DW_AT_name, gw::AttributeValue::StringRef(name));
         d.set(gimli::DW_AT_low_pc, gw::AttributeValue::Address(gw::Address::Constant(low)));
         d.set(gimli::DW_AT_high_pc, gw::AttributeValue::Udata(high));
+        if plan.children && fo % 2 == 0 {
+            // children: a parameter, and a lexical block covering the body
+            // that has a variable of its own
+            let pname = dwarf.strings.add(format!("p{}", fo).into_bytes());
+            let p = unit.add(die, gimli::DW_TAG_formal_parameter);
+            unit.get_mut(p).set(gimli::DW_AT_name, gw::AttributeValue::StringRef(pname));
+            let blk = unit.add(die, gimli::DW_TAG_lexical_block);
+            let b = unit.get_mut(blk);
+            b.set(gimli::DW_AT_low_pc, gw::AttributeValue::Address(gw::Address::Constant(low)));
+            b.set(gimli::DW_AT_high_pc, gw::AttributeValue::Udata(high));
+            let vname = dwarf.strings.add(format!("v{}", fo).into_bytes());
+            let v = unit.add(blk, gimli::DW_TAG_variable);
+            unit.get_mut(v).set(gimli::DW_AT_name, gw::AttributeValue::StringRef(vname));
+        }
     }
     dwarf.units.add(unit);
     let mut sections = gw::Sections::new(gw::EndianVec::new(LittleEndian));
@@ -247,7 +264,9 @@ pub fn gen_plan(m: &ModuleD, ch: &mut Ch) -> DwarfPlan {
         i = e;
     }
     let cu_range = ch.chance(1, 3);
+    let children = ch.chance(1, 2);
     DwarfPlan {
+        children,
         version,
         low_pc_at_body,
         sequences,
@@ -264,6 +283,7 @@ pub fn gen_plan_simple(m: &ModuleD, ch: &mut Ch) -> DwarfPlan {
         sequences: (0..m.funcs.len()).map(|i| vec![i]).collect(),
         row_at_function_start: ch.chance(1, 3),
         cu_range: ch.chance(1, 2),
+        children: ch.chance(1, 2),
     }
 }
 
@@ -304,6 +324,7 @@ pub fn attach_dwarf_codeless(bytes: &[u8]) -> Option<Vec<u8>> {
         sequences: vec![],
         row_at_function_start: false,
         cu_range: false,
+        children: false,
     };
     attach(bytes, &m, &plan)
 }
